@@ -1,6 +1,10 @@
 //! Engine-B property checks.
 #![allow(clippy::all)]
 pub mod c14;
+pub mod c16;
+pub mod c15;
+pub mod c13;
+pub mod c17;
 
 use crate::histex::BResult;
 use crate::props::Tier;
@@ -8,6 +12,10 @@ use crate::props::Tier;
 pub fn run(prop: &str, tier: Tier) -> Option<BResult> {
     match prop {
         "C14" => Some(c14::run(tier)),
+        "C16" => Some(c16::run(tier)),
+        "C15" => Some(c15::run(tier)),
+        "C13" => Some(c13::run(tier)),
+        "C17" => Some(c17::run(tier)),
         _ => None,
     }
 }
